@@ -76,7 +76,9 @@ impl<'a> ColorArgIterator<'a> {
                     *print_spectrum = PrintSpectrum::No;
                 }
                 let color_str = run_external_colorpicker(config.colorpicker)?;
-                ColorArgIterator::from_color_arg(config, &color_str, print_spectrum)
+                // The output of the color picker is a color, not another color argument:
+                // interpreting it as 'pick' (or '-') again would recurse without bound.
+                parse_color(&color_str).ok_or(PastelError::ColorParseError(color_str))
             }
             color_str => {
                 parse_color(color_str).ok_or_else(|| PastelError::ColorParseError(color_str.into()))
